@@ -127,7 +127,7 @@ func (eng *Engine) verifyFunctionTagged(fn *ssa.Function, fc *FuncContract, tag 
 	}
 	ex.loops = loops
 	ex.useVisited = fc.mentions("visited(")
-	ex.useEval = fc.mentions("evalcount(")
+	ex.useEval = fc.mentionsEval()
 	ex.rangeOrd = map[*ssa.Range]int{}
 	ex.rangeRow = map[*ssa.Range]string{}
 	for _, l := range loops {
@@ -1866,7 +1866,7 @@ func (ex *exec) loopGhosts(li *loopInfo) []*heapInfo {
 		}
 	}
 	if calls && ex.useEval {
-		out = append(out, ex.vc.evalCountHeap())
+		out = append(out, ex.vc.evalHeaps()...)
 	}
 	sort.Slice(out, func(i, j int) bool { return out[i].name < out[j].name })
 	return out
